@@ -39,6 +39,10 @@ func genC02Cache(r *prng, tier string) *Plan {
 		n = r.rng(4, 80)
 	}
 	ttl := p.ki("ttl_ms", 1000)
+	if r.chance(0.06) {
+		// many IDs that expire within one sweep interval (a sweep must not leave some of them behind)
+		p.Items = append(p.Items, Item{Op: "bulk", A: []int64{int64(r.rng(4000, 9000))}})
+	}
 	for i := 0; i < n; i++ {
 		switch x := r.intn(10); {
 		case x < 3:
@@ -81,6 +85,8 @@ func runC02Cache(s *sim) {
 		return created+k*c02Sweep < now
 	}
 	nOps := 0
+	bulk := map[int64]*c02Ent{}
+	var bulkN int64
 	for _, it := range p.Items {
 		if len(s.viol) > 0 {
 			break
@@ -99,6 +105,43 @@ func runC02Cache(s *sim) {
 		switch it.Op {
 		case "adv":
 			s.advance(time.Duration(it.a(0)) * time.Millisecond)
+			// a sample of the bulk entries is looked at whenever time has passed
+			for _, j := range []int64{0, bulkN / 2, bulkN - 1} {
+				if bulkN == 0 {
+					break
+				}
+				now := s.now()
+				got := tc.Has(fmt.Sprintf("bulk%d", j))
+				be := bulk[j]
+				if be == nil {
+					continue
+				}
+				mustB := now < be.expiry
+				goneB := sweptSince(be.expiry, now)
+				switch {
+				case mustB && !got:
+					s.violate("C02", "cache-remember", "C02/cache/forgot-inside-ttl", "%s Has(bulk%d) false at %v although the entry expires at %v", stratName(last), j, now, be.expiry)
+				case goneB && got:
+					s.violate("C02", "cache-forget", "C02/cache/remembered-after-sweep", "%s Has(bulk%d of %d entries added together) true at %v although the entry expired at %v and a sweep ran since", stratName(last), j, bulkN, now, be.expiry)
+				}
+				if got && last {
+					be.expiry = now + ttl
+				}
+				if goneB && !got {
+					delete(bulk, j)
+					s.probe("bulk_entry_forgotten_after_sweep")
+				}
+			}
+			continue
+		case "bulk":
+			bulkN = it.a(0)
+			for j := int64(0); j < bulkN; j++ {
+				tc.Add(fmt.Sprintf("bulk%d", j))
+			}
+			for _, j := range []int64{0, bulkN / 2, bulkN - 1} {
+				bulk[j] = &c02Ent{present: true, expiry: now + ttl}
+			}
+			s.probe("bulk_add")
 			continue
 		case "add":
 			nOps++
@@ -182,6 +225,11 @@ func genC02Node(r *prng, tier string) *Plan {
 	p.Knobs["workers"] = float64(r.rng(1, 3))
 	p.Knobs["p_park"] = []float64{0, 0.3, 0.7}[r.intn(3)]
 	p.Knobs["val_queue"] = 32
+	if p.SK["router"] == "gossipsub" && r.chance(0.25) {
+		// peer scoring with its own (shorter) delivery-record window: unrelated to the seen window
+		p.Knobs["scoring"] = 1
+		p.Knobs["score_seen_ttl_ms"] = float64([]int{1, 500, 5000}[r.intn(3)])
+	}
 	add := func(op string, a ...int64) { p.Items = append(p.Items, Item{Op: op, A: a}) }
 	add("node-sub", 0)
 	for k := r.intn(3); k > 0; k-- {
@@ -209,8 +257,12 @@ func genC02Node(r *prng, tier string) *Plan {
 			add("pubdup", i, 0, int64(r.rng(8, 60)))
 		case x < 50:
 			add("resend", i, int64(r.intn(5)))
+		case x < 54:
+			add("node-pub-same", int64(r.intn(5)), 0) // local publish whose content equals a known message (same ID under content hash)
+		case x < 55:
+			add("node-pub-same", int64(r.intn(5)), 1) // ... as a local-only publication
 		case x < 56:
-			add("node-pub-same", int64(r.intn(5))) // local publish whose content equals a known message (same ID under content hash)
+			add("batch-reuse", int64(r.rng(1, 3)), int64(r.intn(2))) // one MessageBatch published twice
 		case x < 60:
 			add("node-pub", 0, int64(r.rng(8, 60)))
 		case x < 78:
@@ -295,8 +347,39 @@ func runC02Node(s *sim) {
 			if err != nil {
 				return err
 			}
+			if it.a(1) == 1 {
+				return t.Publish(s.bgctx(), data, WithLocalPublication(true))
+			}
 			return t.Publish(s.bgctx(), data)
 		})
+	}
+	w.extraOps["batch-reuse"] = func(it Item) {
+		var batch MessageBatch
+		topic := w.topicName(0)
+		addOne := func() {
+			data := w.mkData(24)
+			if idfn != 0 {
+				id := contentID(&pb.Message{Topic: &topic, Data: data})
+				arrivals[id] = append(arrivals[id], sight{s.now(), true})
+				localAttempts[id] = append(localAttempts[id], s.now())
+			}
+			s.do("AddToBatch", func() any {
+				t, err := w.n.topic(topic)
+				if err != nil {
+					return err
+				}
+				return t.AddToBatch(s.bgctx(), &batch, data)
+			})
+		}
+		for k := int64(0); k < it.a(0); k++ {
+			addOne()
+		}
+		s.do("PublishBatch", func() any { return w.n.ps.PublishBatch(&batch) })
+		if it.a(1) == 1 {
+			addOne()
+		}
+		s.probe("batch_published_twice")
+		s.do("PublishBatch (same batch again)", func() any { return w.n.ps.PublishBatch(&batch) })
 	}
 	w.atEnd = append(w.atEnd, func() {
 		for round := 0; round < 64; round++ {
